@@ -26,7 +26,7 @@ namespace U3.Pool
 anything but `HEAD`) a chunk parser has read the empty line that ends the message — or has hit EOF
 while it was discarding the trailer section (the connection is then at EOF: the checkout probe drops it) -/
 def Done (rs : Resp) : Prop :=
-  if rs.chunked = true ∧ rs.isHead = false then (rs.eom = true ∨ rs.eof = true) else rs.length = some 0
+  if rs.chunked = true ∧ rs.isHead = false then (rs.eom = true ∨ rs.eofAt.isSome = true) else rs.length = some 0
 
 /-- the end of the body of `rs` is determined by its framing (and not by the end of the connection) -/
 def Delim (rs : Resp) : Prop := rs.length.isSome = true ∨ rs.chunked = true
@@ -36,7 +36,7 @@ structure LinkX (L X : Option Nat) (s : State) : Prop where
   bound : ∀ (c : Nat) (cn : Conn) (r : Nat), s.conns[c]? = some cn → cn.pending = some r → r < s.resps.length
   pend : ∀ (c : Nat) (cn : Conn) (k r : Nat) (rs : Resp), s.conns[c]? = some cn → cn.sock = some k →
     cn.pending = some r → s.resps[r]? = some rs →
-    Delim rs ∧ (∀ k', rs.fp = some k' → k' = k) ∧
+    Delim rs ∧ (∀ k', rs.fp = some k' ∨ rs.eofAt = some k' → k' = k) ∧
     (L ≠ some c →
       if X = some r then rs.conn = some c
       else (rs.fp = none → Done rs) ∧ (rs.fp ≠ none → rs.conn = some c))
@@ -69,7 +69,7 @@ theorem linkx_frame {L X : Option Nat} {s s' : State} (h : LinkX L X s)
       ∃ cn : Conn, s.conns[c]? = some cn ∧ cn'.sock = cn.sock ∧ (cn'.pending = cn.pending ∨ cn'.pending = none))
     (hl : s.resps.length ≤ s'.resps.length)
     (hr : ∀ (r : Nat) (rs' : Resp), s'.resps[r]? = some rs' → r < s.resps.length →
-      ∃ rs : Resp, s.resps[r]? = some rs ∧ rs'.fp = rs.fp ∧ rs'.conn = rs.conn ∧ (Delim rs → Delim rs') ∧ (Done rs → Done rs')) :
+      ∃ rs : Resp, s.resps[r]? = some rs ∧ rs'.fp = rs.fp ∧ rs'.conn = rs.conn ∧ rs'.eofAt = rs.eofAt ∧ (Delim rs → Delim rs') ∧ (Done rs → Done rs')) :
     LinkX L X s' := by
   refine ⟨?_, ?_, ?_⟩
   · intro c cn' h1 h2
@@ -89,9 +89,9 @@ theorem linkx_frame {L X : Option Nat} {s s' : State} (h : LinkX L X s)
     · rw [e] at h2; cases h2
     · rcases g3 with g3 | g3
       · have hb := h.bound c cn r g1 (by rw [← g3]; exact h3)
-        obtain ⟨rs, q1, q2, q3, q4, q5⟩ := hr r rs' h4 hb
+        obtain ⟨rs, q1, q2, q3, q3', q4, q5⟩ := hr r rs' h4 hb
         obtain ⟨p1, p2, p3⟩ := h.pend c cn k r rs g1 (by rw [← g2]; exact h2) (by rw [← g3]; exact h3) q1
-        refine ⟨q4 p1, by rw [q2]; exact p2, fun hL => ?_⟩
+        refine ⟨q4 p1, by rw [q2, q3']; exact p2, fun hL => ?_⟩
         have p3' := p3 hL
         rw [q2, q3]
         split
@@ -107,16 +107,16 @@ theorem closeFp_fields2 (s : State) (r : Nat) :
     (closeFp s r).conns = s.conns ∧ (closeFp s r).resps.length = s.resps.length ∧
     (∀ i, i ≠ r → (closeFp s r).resps[i]? = s.resps[i]?) ∧
     (∀ rs : Resp, s.resps[r]? = some rs → ∃ rs' : Resp, (closeFp s r).resps[r]? = some rs' ∧ rs'.fp = none ∧
-      rs'.length = rs.length ∧ rs'.conn = rs.conn ∧ (Delim rs → Delim rs') ∧ (Done rs → Done rs')) := by
+      rs'.length = rs.length ∧ rs'.conn = rs.conn ∧ rs'.eofAt = rs.eofAt ∧ (Delim rs → Delim rs') ∧ (Done rs → Done rs')) := by
   obtain ⟨e1, _, e3, e4, _⟩ := closeFp_fields s r
   refine ⟨e1, e3, e4, ?_⟩
   intro rs hrs
   unfold closeFp
   simp only [hrs]
   split
-  · rename_i h1; exact ⟨rs, hrs, h1, rfl, rfl, id, id⟩
+  · rename_i h1; exact ⟨rs, hrs, h1, rfl, rfl, rfl, id, id⟩
   · rw [(noteClose_fields _ _).2.1]
-    exact ⟨{ rs with fp := none, buf := [] }, by simp [setResp, List.getElem?_modify, hrs], rfl, rfl, rfl, id, id⟩
+    exact ⟨{ rs with fp := none, buf := [] }, by simp [setResp, List.getElem?_modify, hrs], rfl, rfl, rfl, rfl, id, id⟩
 
 theorem closeFp_linkx {L X : Option Nat} {s : State} {r : Nat} (h : LinkX L X s)
     (ok : X = some r ∨ ∀ rs : Resp, s.resps[r]? = some rs → rs.fp = none ∨ Done rs ∨ NoOwner L s r) :
@@ -129,10 +129,14 @@ theorem closeFp_linkx {L X : Option Nat} {s : State} {r : Nat} (h : LinkX L X s)
   · subst hrr
     have hb := h.bound c cn r' h1 h3
     have hrs : s.resps[r']? = some s.resps[r'] := List.getElem?_eq_getElem hb
-    obtain ⟨rs'', g1, g2, g3, g4, g5, g6⟩ := e4 _ hrs
+    obtain ⟨rs'', g1, g2, g3, g4, g4', g5, g6⟩ := e4 _ hrs
     rw [g1] at h4; cases h4
     obtain ⟨q1, q2, q3⟩ := h.pend c cn k r' _ h1 h2 h3 hrs
-    refine ⟨g5 q1, (by intro k' hk'; rw [g2] at hk'; cases hk'), ?_⟩
+    refine ⟨g5 q1, (by
+      intro k' hk'
+      rcases hk' with hk' | hk'
+      · rw [g2] at hk'; cases hk'
+      · exact q2 k' (Or.inr (by rw [← g4']; exact hk'))), ?_⟩
     intro hL
     have q3' := q3 hL
     by_cases hX : X = some r'
@@ -156,7 +160,7 @@ theorem linkx_log {L X : Option Nat} {s s' : State} (h : LinkX L X s) (hc : s'.c
     LinkX L X s' := by
   refine linkx_frame h ?_ (by rw [hr]; exact Nat.le_refl _) ?_
   · intro c cn' h1; rw [hc] at h1; exact Or.inr ⟨cn', h1, rfl, Or.inl rfl⟩
-  · intro r rs' h1 _; rw [hr] at h1; exact ⟨rs', h1, rfl, rfl, id, id⟩
+  · intro r rs' h1 _; rw [hr] at h1; exact ⟨rs', h1, rfl, rfl, rfl, id, id⟩
 
 theorem connClose_linkx_gen {L X : Option Nat} {s : State} (c : Nat) (h : LinkX L X s)
     (si : SockInj s ∨ (L = none ∧ X = none)) :
@@ -166,7 +170,7 @@ theorem connClose_linkx_gen {L X : Option Nat} {s : State} (c : Nat) (h : LinkX 
   · exact h
   · rename_i cn hcn
     have h1 : LinkX L X (setConn s c fun x => { x with sock := none, http := .idle, pending := none, proxyConnected := false }) := by
-      refine linkx_frame h ?_ (Nat.le_refl _) (fun r rs' h1 _ => ⟨rs', h1, rfl, rfl, id, id⟩)
+      refine linkx_frame h ?_ (Nat.le_refl _) (fun r rs' h1 _ => ⟨rs', h1, rfl, rfl, rfl, id, id⟩)
       intro c' cn' h1
       simp only [setConn, List.getElem?_modify] at h1
       cases hx : s.conns[c']? with
@@ -211,11 +215,11 @@ theorem connClose_linkx_gen {L X : Option Nat} {s : State} (c : Nat) (h : LinkX 
             | some k2 =>
               exfalso
               rw [tr, hr1] at hrs
-              have n2 := (h.pend c2 cn2 k2 r rs g1' hs2 g2 hrs).2.1 k' hfp
+              have n2 := (h.pend c2 cn2 k2 r rs g1' hs2 g2 hrs).2.1 k' (Or.inl hfp)
               cases hsc : cn.sock with
               | none => have := h.nosock c cn hcn hsc; rw [hp] at this; cases this
               | some k =>
-                have n1 := (h.pend c cn k r rs hcn hsc hp hrs).2.1 k' hfp
+                have n1 := (h.pend c cn k r rs hcn hsc hp hrs).2.1 k' (Or.inl hfp)
                 rcases si with si | ⟨rfl, rfl⟩
                 · exact hne (si c2 c cn2 cn k' g1' hcn (by rw [hs2, n2]) (by rw [hsc, n1]))
                 · have a1 := (h.pend c2 cn2 k2 r rs g1' hs2 g2 hrs).2.2 (by intro e; cases e)
@@ -238,7 +242,8 @@ theorem setResp_linkx {L X : Option Nat} {s : State} (r : Nat) (g : Resp → Res
     (hfp : ∀ x, (g x).fp = x.fp)
     (hdl : ∀ x, s.resps[r]? = some x → Delim x → Delim (g x))
     (hdn : ∀ x, s.resps[r]? = some x → (Done x → Done (g x)) ∨ x.fp ≠ none ∨ X = some r)
-    (hconn : ∀ x, s.resps[r]? = some x → (g x).conn = x.conn ∨ (x.fp = none ∧ X ≠ some r)) :
+    (hconn : ∀ x, s.resps[r]? = some x → (g x).conn = x.conn ∨ (x.fp = none ∧ X ≠ some r))
+    (heo : ∀ x, (g x).eofAt = x.eofAt := by intro x; rfl) :
     LinkX L X (setResp s r g) := by
   refine ⟨h.nosock, by simpa [setResp] using h.bound, ?_⟩
   intro c cn k r' rs' h1 h2 h3 h4
@@ -252,7 +257,7 @@ theorem setResp_linkx {L X : Option Nat} {s : State} (r : Nat) (g : Resp → Res
     by_cases hrr : r = r'
     · subst hrr
       simp at h4; subst h4
-      refine ⟨hdl x hx q1, by rw [hfp]; exact q2, ?_⟩
+      refine ⟨hdl x hx q1, by rw [hfp, heo]; exact q2, ?_⟩
       · intro hL
         have q3' := q3 hL
         by_cases hX : X = some r
@@ -327,7 +332,7 @@ theorem setConn_flag_linkx {L X : Option Nat} {s : State} (c : Nat) (b : Bool) (
       simp only [hx, Option.map_eq_map, Option.map_some, Option.some.injEq] at h1
       subst h1
       refine ⟨x, rfl, ?_, Or.inl ?_⟩ <;> (split <;> rfl)
-  · intro r rs' h1 _; exact ⟨rs', h1, rfl, rfl, id, id⟩
+  · intro r rs' h1 _; exact ⟨rs', h1, rfl, rfl, rfl, id, id⟩
 
 theorem putConn_linkx {L X : Option Nat} {s : State} (x : Option Nat) (h : LinkX L X s) (si : SockInj s) :
     LinkX L X (putConn s x).1 := by
@@ -514,8 +519,8 @@ theorem readRel_linkx {L X : Option Nat} {s s' : State} {r k : Nat} {m : List Ce
       have hrs : s.resps[i]? = some s.resps[i] := List.getElem?_eq_getElem hb
       obtain ⟨b, hb'⟩ := rel.rsame _ hrs
       rw [hb'] at h1; cases h1
-      exact ⟨_, hrs, rfl, rfl, id, id⟩
-    · rw [rel.rother i hir] at h1; exact ⟨rs', h1, rfl, rfl, id, id⟩
+      exact ⟨_, hrs, rfl, rfl, rfl, id, id⟩
+    · rw [rel.rother i hir] at h1; exact ⟨rs', h1, rfl, rfl, rfl, id, id⟩
 
 theorem done_plain {rs : Resp} (hc : rs.chunked = false) : Done rs ↔ rs.length = some 0 := by
   unfold Done; simp [hc]
@@ -523,14 +528,16 @@ theorem done_plain {rs : Resp} (hc : rs.chunked = false) : Done rs ↔ rs.length
 theorem done_head {rs : Resp} (hc : rs.isHead = true) : Done rs ↔ rs.length = some 0 := by
   unfold Done; simp [hc]
 
-theorem done_chunked {rs : Resp} (hc : rs.chunked = true) (hh : rs.isHead = false) : Done rs ↔ (rs.eom = true ∨ rs.eof = true) := by
+theorem done_chunked {rs : Resp} (hc : rs.chunked = true) (hh : rs.isHead = false) :
+    Done rs ↔ (rs.eom = true ∨ rs.eofAt.isSome = true) := by
   unfold Done; simp [hc, hh]
 
 theorem delim_plain {rs : Resp} (hc : rs.chunked = false) : Delim rs ↔ rs.length.isSome = true := by
   unfold Delim; simp [hc]
 
-/-- whatever the focused reader does to its own buffers and parser state -/
-theorem dirty_linkx {L : Option Nat} {s s' : State} {r k : Nat} (h : LinkX L (some r) s) (d : Dirty r k s s') :
+/-- whatever the focused reader (open on socket `k`) does to its own buffers and parser state -/
+theorem dirty_linkx {L : Option Nat} {s s' : State} {r k : Nat} (h : LinkX L (some r) s) (d : Dirty r k s s')
+    (hfp : ∀ rs : Resp, s.resps[r]? = some rs → rs.fp = some k) :
     LinkX L (some r) s' := by
   refine ⟨by rw [d.conns]; exact h.nosock, by rw [d.conns, d.rlen]; exact h.bound, ?_⟩
   intro c cn k' r' rs' h1 h2 h3 h4
@@ -539,15 +546,19 @@ theorem dirty_linkx {L : Option Nat} {s s' : State} {r k : Nat} (h : LinkX L (so
   · subst hrr
     have hb := h.bound c cn r' h1 h3
     have hrs : s.resps[r']? = some s.resps[r'] := List.getElem?_eq_getElem hb
-    obtain ⟨rs1, g1, _, _, _, a4, _, a6, a7, a8, _⟩ := d.rsame _ hrs
+    obtain ⟨rs1, g1, _, _, _, a4, _, a6, a7, a8, _, a10⟩ := d.rsame _ hrs
     rw [g1] at h4; cases h4
     obtain ⟨q1, q2, q3⟩ := h.pend c cn k' r' _ h1 h2 h3 hrs
     refine ⟨?_, ?_, fun hL => ?_⟩
     · unfold Delim at q1 ⊢; rw [a6, a7]; exact q1
     · intro k2 hk2
-      rcases a4 with a4 | a4
-      · exact q2 k2 (by rw [← a4]; exact hk2)
-      · rw [a4] at hk2; cases hk2
+      rcases hk2 with hk2 | hk2
+      · rcases a4 with a4 | a4
+        · exact q2 k2 (Or.inl (by rw [← a4]; exact hk2))
+        · rw [a4] at hk2; cases hk2
+      · rcases a10 k2 hk2 with g | ⟨g, _⟩
+        · exact q2 k2 (Or.inr g)
+        · subst g; exact q2 k2 (Or.inl (hfp _ hrs))
     · have := q3 hL
       simp only [if_true] at this ⊢
       rw [a8]; exact this
@@ -574,7 +585,7 @@ def HRPost (r : Nat) (amt : Option Nat) (s1 : State) (out : DataOut) : Prop :=
 
 theorem closeFp_at (s : State) (r : Nat) (rs : Resp) (hrs : s.resps[r]? = some rs) :
     ∀ rs1 : Resp, (closeFp s r).resps[r]? = some rs1 → rs1.length = rs.length ∧ rs1.chunked = rs.chunked ∧
-      rs1.isHead = rs.isHead ∧ rs1.eom = rs.eom ∧ rs1.eof = rs.eof := by
+      rs1.isHead = rs.isHead ∧ rs1.eom = rs.eom ∧ rs1.eofAt = rs.eofAt := by
   intro rs1 h1
   unfold closeFp at h1
   simp only [hrs] at h1
@@ -603,7 +614,7 @@ theorem setResp_at_none {s : State} {r : Nat} (g : Resp → Resp) (h : s.resps[r
   simp [setResp, List.getElem?_modify, h]
 
 theorem hcDiscardTrailer_post (r k : Nat) : ∀ (fuel : Nat) (s s' : State), hcDiscardTrailer fuel s r k = (s', none) →
-    ∀ rs' : Resp, s'.resps[r]? = some rs' → rs'.eom = true ∨ rs'.eof = true := by
+    ∀ rs' : Resp, s'.resps[r]? = some rs' → rs'.eom = true ∨ rs'.eofAt = some k := by
   intro fuel
   induction fuel with
   | zero => intro s s' h; simp [hcDiscardTrailer] at h
@@ -629,7 +640,7 @@ theorem hcDiscardTrailer_post (r k : Nat) : ∀ (fuel : Nat) (s s' : State), hcD
         · exact ih s1 s' h rs' hrs'
 
 theorem skipTrailers_post (r k : Nat) : ∀ (fuel : Nat) (s s' : State), skipTrailers fuel s r k = (s', none) →
-    ∀ rs' : Resp, s'.resps[r]? = some rs' → rs'.eom = true ∨ rs'.eof = true := by
+    ∀ rs' : Resp, s'.resps[r]? = some rs' → rs'.eom = true ∨ rs'.eofAt = some k := by
   intro fuel
   induction fuel with
   | zero => intro s s' h; simp [skipTrailers] at h
@@ -655,7 +666,7 @@ theorem skipTrailers_post (r k : Nat) : ∀ (fuel : Nat) (s s' : State), skipTra
         · exact ih s1 s' h rs' hrs'
 
 theorem hcNext_post {s s' : State} {r k : Nat} {cl v : Option Nat} (h : hcNext s r k cl = (s', .left v)) :
-    (v = none → ∀ rs' : Resp, s'.resps[r]? = some rs' → rs'.fp = none ∧ (rs'.eom = true ∨ rs'.eof = true)) ∧
+    (v = none → ∀ rs' : Resp, s'.resps[r]? = some rs' → rs'.fp = none ∧ (rs'.eom = true ∨ rs'.eofAt = some k)) ∧
     (∀ n, v = some n → 0 < n ∧ ∃ m, ReadRelP r k s s' m) := by
   unfold hcNext at h
   generalize hto : hcToss s r k cl = res at h
@@ -699,7 +710,7 @@ theorem hcNext_post {s s' : State} {r k : Nat} {cl v : Option Nat} (h : hcNext s
         exact (rel0.trans rel1).toP.trans (setParse_relP r k s2 _ (fun x => ⟨rfl, rfl, rfl, rfl, rfl, rfl, rfl, rfl, rfl, rfl⟩))
 
 theorem hcGetChunkLeft_post {s s' : State} {r k : Nat} {v : Option Nat} (h : hcGetChunkLeft s r k = (s', .left v)) :
-    (v = none → ∀ rs' : Resp, s'.resps[r]? = some rs' → rs'.fp = none ∧ (rs'.eom = true ∨ rs'.eof = true)) ∧
+    (v = none → ∀ rs' : Resp, s'.resps[r]? = some rs' → rs'.fp = none ∧ (rs'.eom = true ∨ rs'.eofAt = some k)) ∧
     (∀ n, v = some n → 0 < n ∧ ∃ m, ReadRelP r k s s' m) := by
   unfold hcGetChunkLeft at h
   split at h
@@ -722,7 +733,7 @@ theorem open_of_relP {s s' : State} {r k : Nat} {m : List Cell} (rel : ReadRelP 
 theorem hcReadChunked_post (r k : Nat) : ∀ (fuel : Nat) (s s1 : State) (amt : Option Nat) (acc d : List Cell),
     hcReadChunked fuel s r k amt acc = (s1, .data d) → (∀ rs : Resp, s.resps[r]? = some rs → rs.fp ≠ none) →
     ∀ rs1 : Resp, s1.resps[r]? = some rs1 →
-      (rs1.fp ≠ none ∧ ((acc ≠ [] ∨ ∀ n, amt = some n → n ≠ 0) → d ≠ [])) ∨ (rs1.eom = true ∨ rs1.eof = true) := by
+      (rs1.fp ≠ none ∧ ((acc ≠ [] ∨ ∀ n, amt = some n → n ≠ 0) → d ≠ [])) ∨ (rs1.eom = true ∨ rs1.eofAt = some k) := by
   intro fuel
   induction fuel with
   | zero => intro s s1 amt acc d h; simp [hcReadChunked] at h
@@ -820,7 +831,7 @@ theorem httpRead_link {A : Nat → Attempt → Prop} {f : Focus} {L : Option Nat
       rename_i hch
       have dd := hcReadChunked_dirty r k (inboundLen s k + rs.buf.length + 2) s amt []
       rw [hh] at dd
-      refine ⟨dirty_linkx h dd, dd.conns, ?_⟩
+      refine ⟨dirty_linkx h dd (fun rs' h' => by rw [hrs] at h'; cases h'; exact hk), dd.conns, ?_⟩
       intro d hd rs1 h1
       cases hd
       obtain ⟨rx, hx, _, _, a3, _, _, a6, _⟩ := dd.rsame rs hrs
@@ -828,7 +839,8 @@ theorem httpRead_link {A : Nat → Attempt → Prop} {f : Focus} {L : Option Nat
       rcases hcReadChunked_post r k _ s s1 amt [] d hh (fun rs' h' => by rw [hrs] at h'; cases h'; rw [hk]; simp) rs1 h1 with ⟨o1, o2⟩ | o
       · exact Or.inl ⟨o1, fun _ n hn hn0 => o2 (Or.inr (fun n' hn' => by rw [hn] at hn'; cases hn'; exact hn0))⟩
       · right; left
-        rw [done_chunked (by rw [a6]; exact hch) (by rw [a3]; simpa using hhead)]; exact o
+        rw [done_chunked (by rw [a6]; exact hch) (by rw [a3]; simpa using hhead)]
+        exact o.imp id (fun e => by rw [e]; rfl)
     rename_i hch
     have hch : rs.chunked = false := by simpa using hch
     generalize inboundLen s k + 2 = fuel at hh
@@ -973,7 +985,7 @@ theorem noOwner_of_lennone {L X : Option Nat} {s : State} {r : Nat} {rs : Resp} 
 /-- closing readers and connections, queue traffic: the framing facts of every response stay -/
 def RQ (s s' : State) : Prop :=
   ∀ (i : Nat) (rs : Resp), s.resps[i]? = some rs → ∃ rs' : Resp, s'.resps[i]? = some rs' ∧ rs'.length = rs.length ∧
-    rs'.chunked = rs.chunked ∧ rs'.isHead = rs.isHead ∧ rs'.eom = rs.eom ∧ rs'.eof = rs.eof
+    rs'.chunked = rs.chunked ∧ rs'.isHead = rs.isHead ∧ rs'.eom = rs.eom ∧ rs'.eofAt = rs.eofAt
 
 theorem RQ.refl (s : State) : RQ s s := fun i rs h => ⟨rs, h, rfl, rfl, rfl, rfl, rfl⟩
 
@@ -1032,7 +1044,7 @@ theorem putConn_rq (s : State) (x : Option Nat) : RQ s (putConn s x).1 := by
 
 theorem putConn_resp_fields (s : State) (x : Option Nat) (r : Nat) (rs : Resp) (hq : s.resps[r]? = some rs) :
     ∃ rs1 : Resp, (putConn s x).1.resps[r]? = some rs1 ∧ rs1.length = rs.length ∧ rs1.chunked = rs.chunked ∧
-      rs1.isHead = rs.isHead ∧ rs1.eom = rs.eom ∧ rs1.eof = rs.eof := putConn_rq s x r rs hq
+      rs1.isHead = rs.isHead ∧ rs1.eom = rs.eom ∧ rs1.eofAt = rs.eofAt := putConn_rq s x r rs hq
 
 /-- the clean exit of `_error_catcher` (`release_conn()` of a closed response) does not touch what
 `Done` / `Delim` look at -/
@@ -1040,7 +1052,7 @@ theorem ece_true_same {s : State} {r : Nat} {rs rs' : Resp} (hcl : respFpClosed 
     (h3 : (errorCatcherExit s r true).1.resps[r]? = some rs') : (Done rs' ↔ Done rs) ∧ (Delim rs' ↔ Delim rs) := by
   have e : (errorCatcherExit s r true) = (if respFpClosed s r then releaseConn s r else (s, none)) := rfl
   rw [e, if_pos hcl] at h3
-  have key : rs'.length = rs.length ∧ rs'.chunked = rs.chunked ∧ rs'.isHead = rs.isHead ∧ rs'.eom = rs.eom ∧ rs'.eof = rs.eof := by
+  have key : rs'.length = rs.length ∧ rs'.chunked = rs.chunked ∧ rs'.isHead = rs.isHead ∧ rs'.eom = rs.eom ∧ rs'.eofAt = rs.eofAt := by
     unfold releaseConn at h3
     simp only [hq] at h3
     split at h3
@@ -1374,16 +1386,40 @@ theorem deliver_ci {r : Nat} {s : State} (d : List Cell) (h : CI r s) : CI r (de
   | none => simp [hx] at hrs'
   | some x => simp [hx] at hrs'; subst hrs'; exact h x hx
 
+/-- response `r` is open on socket `k` -/
+def OpenK (r k : Nat) (s : State) : Prop := ∀ rs : Resp, s.resps[r]? = some rs → rs.fp = some k
+
+theorem openK_relP {r k : Nat} {s s' : State} {m : List Cell} (rel : ReadRelP r k s s' m) (h : OpenK r k s) : OpenK r k s' := by
+  intro rs' hrs'
+  have hb : r < s.resps.length := by
+    rw [← rel.rlen]
+    rcases Nat.lt_or_ge r s'.resps.length with h' | h'
+    · exact h'
+    · rw [List.getElem?_eq_none h'] at hrs'; cases hrs'
+  obtain ⟨rx, hx, _, _, _, a4, _⟩ := rel.rsame _ (List.getElem?_eq_getElem hb)
+  rw [hrs'] at hx; cases hx
+  rw [a4]; exact h _ (List.getElem?_eq_getElem hb)
+
+theorem deliver_openK {r k : Nat} {s : State} (d : List Cell) (h : OpenK r k s) : OpenK r k (deliver s r d) := by
+  intro rs' hrs'
+  simp only [deliver, setResp, List.getElem?_modify] at hrs'
+  cases hx : s.resps[r]? with
+  | none => simp [hx] at hrs'
+  | some x => simp [hx] at hrs'; subst hrs'; exact h x hx
+
 theorem updateChunkLength_link {L : Option Nat} {s s' : State} {r k : Nat} {oe : Option Exc}
-    (h : LinkX L (some r) s) (si : SockInj s) (hci : CI r s) (hu : updateChunkLength s r k = (s', oe)) :
-    SockInj s' ∧ (oe = none → LinkX L (some r) s' ∧ CI r s') ∧ (∀ e, oe = some e → Link L s' ∨ LinkX L (some r) s') := by
+    (h : LinkX L (some r) s) (si : SockInj s) (hci : CI r s) (hok : OpenK r k s) (hu : updateChunkLength s r k = (s', oe)) :
+    SockInj s' ∧ (oe = none → LinkX L (some r) s' ∧ CI r s' ∧ OpenK r k s') ∧
+    (∀ e, oe = some e → Link L s' ∨ LinkX L (some r) s') := by
+  have hrelp : oe = none → ∃ m, ReadRelP r k s s' m := by
+    intro he; subst he; exact updateChunkLength_relP hu
   unfold updateChunkLength at hu
   split at hu
-  · cases hu; exact ⟨si, fun _ => ⟨h, hci⟩, by intro e he; cases he⟩
+  · cases hu; exact ⟨si, fun _ => ⟨h, hci, hok⟩, by intro e he; cases he⟩
   · have d1 := fpReadline_dirty (inboundLen s k + 2) s r k []
     generalize fpReadline (inboundLen s k + 2) s r k [] = res at hu d1
     obtain ⟨s1, o⟩ := res
-    have h1 := dirty_linkx h d1
+    have h1 := dirty_linkx h d1 hok
     have si1 : SockInj s1 := sockInj_conns d1.conns si
     cases o with
     | exc e => cases hu; exact ⟨si1, (by intro he; cases he), fun _ _ => Or.inr h1⟩
@@ -1392,42 +1428,47 @@ theorem updateChunkLength_link {L : Option Nat} {s s' : State} {r k : Nat} {oe :
       split at hu
       · cases hu
         have d2 := setParse_dirty r k s1 (fun x => { x with chunkLeft := some ‹Nat› }) (fun x => ⟨rfl, rfl, rfl, rfl, rfl, rfl, rfl, rfl, rfl, rfl⟩)
-        exact ⟨sockInj_conns d2.conns si1, fun _ => ⟨dirty_linkx h1 d2, d2.ci (d1.ci hci)⟩, by intro e he; cases he⟩
+        obtain ⟨m, relp⟩ := hrelp rfl
+        exact ⟨sockInj_conns d2.conns si1, fun _ => ⟨dirty_linkx h (d1.trans d2) hok, d2.ci (d1.ci hci), openK_relP relp hok⟩,
+          by intro e he; cases he⟩
       · cases hu
         exact ⟨(respClose_safe s1 r).sockInj si1, (by intro he; cases he), fun _ _ => Or.inl (respClose_exempt h1 si1)⟩
 
 theorem chunkLoop_link {L : Option Nat} {r k amt : Nat} : ∀ (fuel : Nat) (s s' : State) (acc : List Cell) (out : DataOut),
-    LinkX L (some r) s → SockInj s → CI r s → chunkLoop fuel s r k amt acc = (s', out) →
-    SockInj s' ∧ (∀ d, out = .data d → LinkX L (some r) s' ∧ CI r s') ∧ (∀ e, out = .exc e → Link L s' ∨ LinkX L (some r) s') := by
+    LinkX L (some r) s → SockInj s → CI r s → OpenK r k s → chunkLoop fuel s r k amt acc = (s', out) →
+    SockInj s' ∧ (∀ d, out = .data d → LinkX L (some r) s' ∧ CI r s' ∧ OpenK r k s') ∧
+    (∀ e, out = .exc e → Link L s' ∨ LinkX L (some r) s') := by
   intro fuel
   induction fuel with
   | zero =>
-    intro s s' acc out h si hci hl
+    intro s s' acc out h si hci hok hl
     simp [chunkLoop] at hl; obtain ⟨rfl, rfl⟩ := hl
     exact ⟨si, (by intro d hd; cases hd), fun _ _ => Or.inr h⟩
   | succ fuel ih =>
-    intro s s' acc out h si hci hl
+    intro s s' acc out h si hci hok hl
     unfold chunkLoop at hl
     generalize hu : updateChunkLength s r k = res at hl
     obtain ⟨s1, oe⟩ := res
-    obtain ⟨si1, q1, q2⟩ := updateChunkLength_link h si hci hu
+    obtain ⟨si1, q1, q2⟩ := updateChunkLength_link h si hci hok hu
     cases oe with
     | some e => cases hl; exact ⟨si1, (by intro d hd; cases hd), fun _ _ => q2 e rfl⟩
     | none =>
-      obtain ⟨h1, hci1⟩ := q1 rfl
+      obtain ⟨h1, hci1, hok1⟩ := q1 rfl
       dsimp only at hl
       split at hl
-      · cases hl; exact ⟨si1, fun _ _ => ⟨h1, hci1⟩, by intro e he; cases he⟩
+      · cases hl; exact ⟨si1, fun _ _ => ⟨h1, hci1, hok1⟩, by intro e he; cases he⟩
       · have d2 := handleChunk_dirty s1 r k amt
-        generalize handleChunk s1 r k amt = res at hl d2
+        generalize hh : handleChunk s1 r k amt = res at hl d2
         obtain ⟨s2, o⟩ := res
-        have h2 := dirty_linkx h1 d2
+        have h2 := dirty_linkx h1 d2 hok1
         have si2 : SockInj s2 := sockInj_conns d2.conns si1
         cases o with
         | exc e => cases hl; exact ⟨si2, (by intro d hd; cases hd), fun _ _ => Or.inr h2⟩
         | data d =>
           dsimp only at hl
-          exact ih (deliver s2 r d) s' _ out (deliver_linkx r d h2) (sockInj_conns rfl si2) (deliver_ci d (d2.ci hci1)) hl
+          obtain ⟨m, relp⟩ := handleChunk_relP hh
+          exact ih (deliver s2 r d) s' _ out (deliver_linkx r d h2) (sockInj_conns rfl si2) (deliver_ci d (d2.ci hci1))
+            (deliver_openK d (openK_relP relp hok1)) hl
 
 theorem readChunkedBody_link {A : Nat → Attempt → Prop} {L : Option Nat} {s s' : State} {r amt : Nat} {out : DataOut}
     (p : Prov A s) (h : Link L s) (hc : respChunked s r = true) (hb : readChunkedBody s r amt = (s', out)) :
@@ -1459,18 +1500,19 @@ theorem readChunkedBody_link {A : Nat → Attempt → Prop} {L : Option Nat} {s 
         generalize inboundLen s k + rs.buf.length + 2 = fuel at hb
         have hx : LinkX L (some r) s := linkx_enter h (fun rs' h' => by rw [hrs] at h'; cases h'; rw [hk]; simp)
         have hci : CI r s := fun rs' h' => by rw [hrs] at h'; cases h'; exact ⟨hch, by simpa using hhead⟩
+        have hok : OpenK r k s := fun rs' h' => by rw [hrs] at h'; cases h'; exact hk
         generalize hcl : chunkLoop fuel s r k amt [] = res at hb
         obtain ⟨s1, o⟩ := res
-        obtain ⟨si1, q1, q2⟩ := chunkLoop_link fuel s s1 [] o hx si hci hcl
+        obtain ⟨si1, q1, q2⟩ := chunkLoop_link fuel s s1 [] o hx si hci hok hcl
         cases o with
         | exc e => cases hb; exact ⟨si1, (by intro d hd; cases hd), fun _ _ => q2 e rfl⟩
         | data d =>
-          obtain ⟨h1, hci1⟩ := q1 d rfl
+          obtain ⟨h1, hci1, hok1⟩ := q1 d rfl
           dsimp only at hb
           have dd := skipTrailers_dirty r k fuel s1
           generalize hst : skipTrailers fuel s1 r k = res2 at hb dd
           obtain ⟨s2, oe⟩ := res2
-          have h2 := dirty_linkx h1 dd
+          have h2 := dirty_linkx h1 dd hok1
           have si2 : SockInj s2 := sockInj_conns dd.conns si1
           cases oe with
           | some e => cases hb; exact ⟨si2, (by intro d hd; cases hd), fun _ _ => Or.inr h2⟩
@@ -1489,7 +1531,7 @@ theorem readChunkedBody_link {A : Nat → Attempt → Prop} {L : Option Nat} {s 
             obtain ⟨_, a2, a3, a4, a5⟩ := closeFp_at s2 r _ hr2 rs3 hrs3
             obtain ⟨g1, g2⟩ := dd.ci hci1 _ hr2
             rw [done_chunked (by rw [a2]; exact g1) (by rw [a3]; exact g2), a4, a5]
-            exact skipTrailers_post r k fuel s1 s2 hst _ hr2
+            exact (skipTrailers_post r k fuel s1 s2 hst _ hr2).imp id (fun e => by rw [e]; rfl)
 
 theorem readChunked_link {A : Nat → Attempt → Prop} {L : Option Nat} {s : State} {r amt : Nat}
     (p : Prov A s) (h : Link L s) (hc : respChunked s r = true) : Link L (readChunked s r amt).1 := by
@@ -1761,7 +1803,7 @@ theorem keepCH_frame (r : Nat) : RFrame r (KeepCH r) where
       · rw [← d.rlen]; exact h'
       · rw [List.getElem?_eq_none h'] at h; cases h
     have hrs : s.resps[r]? = some s.resps[r] := List.getElem?_eq_getElem hb
-    obtain ⟨rx, hx, _, _, _, _, _, _, _, _, a9⟩ := d.rsame _ hrs
+    obtain ⟨rx, hx, _, _, _, _, _, _, _, _, a9, _⟩ := d.rsame _ hrs
     rw [h] at hx; cases hx
     exact ⟨_, hrs, a9⟩
 
@@ -1817,7 +1859,7 @@ theorem linkx_frame2 {L X : Option Nat} {s s' : State} (h : LinkX L X s)
       ∃ cn : Conn, s.conns[c]? = some cn ∧ cn'.sock = cn.sock ∧ cn'.pending = cn.pending)
     (hl : s.resps.length ≤ s'.resps.length)
     (hr : ∀ (r : Nat) (rs' : Resp), s'.resps[r]? = some rs' → r < s.resps.length →
-      ∃ rs : Resp, s.resps[r]? = some rs ∧ rs'.fp = rs.fp ∧ rs'.conn = rs.conn ∧ (Delim rs → Delim rs') ∧ (Done rs → Done rs')) :
+      ∃ rs : Resp, s.resps[r]? = some rs ∧ rs'.fp = rs.fp ∧ rs'.conn = rs.conn ∧ rs'.eofAt = rs.eofAt ∧ (Delim rs → Delim rs') ∧ (Done rs → Done rs')) :
     LinkX L X s' := by
   refine ⟨?_, ?_, ?_⟩
   · intro c cn' h1 h2
@@ -1832,9 +1874,9 @@ theorem linkx_frame2 {L X : Option Nat} {s s' : State} (h : LinkX L X s)
     rcases hc c cn' h1 with e | ⟨cn, g1, g2, g3⟩
     · rw [e] at h3; cases h3
     · have hb := h.bound c cn r g1 (by rw [← g3]; exact h3)
-      obtain ⟨rs, q1, q2, q3, q4, q5⟩ := hr r rs' h4 hb
+      obtain ⟨rs, q1, q2, q3, q3', q4, q5⟩ := hr r rs' h4 hb
       obtain ⟨p1, p2, p3⟩ := h.pend c cn k r rs g1 (by rw [← g2]; exact h2) (by rw [← g3]; exact h3) q1
-      refine ⟨q4 p1, by rw [q2]; exact p2, fun hL => ?_⟩
+      refine ⟨q4 p1, by rw [q2, q3']; exact p2, fun hL => ?_⟩
       have p3' := p3 hL
       rw [q2, q3]
       split
@@ -1842,7 +1884,7 @@ theorem linkx_frame2 {L X : Option Nat} {s s' : State} (h : LinkX L X s)
       · rename_i hX; rw [if_neg hX] at p3'; exact ⟨fun hn => q5 (p3'.1 hn), p3'.2⟩
 
 theorem appendConn_linkx {L X : Option Nat} {s : State} (h : LinkX L X s) : LinkX L X (newConn s).1 := by
-  refine linkx_frame2 h ?_ (Nat.le_refl _) (fun r rs' h1 _ => ⟨rs', h1, rfl, rfl, id, id⟩)
+  refine linkx_frame2 h ?_ (Nat.le_refl _) (fun r rs' h1 _ => ⟨rs', h1, rfl, rfl, rfl, id, id⟩)
   intro c cn' h1
   simp only [newConn, List.getElem?_append] at h1
   split at h1
@@ -1901,7 +1943,7 @@ theorem forget_linkx {L X : Option Nat} {s : State} (c : Nat) (h : LinkX L X s) 
     · split
       · exact h
       · split
-        · refine linkx_frame2 h ?_ (Nat.le_refl _) (fun r rs' h1 _ => ⟨rs', h1, rfl, rfl, id, id⟩)
+        · refine linkx_frame2 h ?_ (Nat.le_refl _) (fun r rs' h1 _ => ⟨rs', h1, rfl, rfl, rfl, id, id⟩)
           intro c' cn' h1
           simp only [setConn, List.getElem?_modify] at h1
           cases hx : s.conns[c']? with
@@ -1915,7 +1957,7 @@ theorem forget_linkx {L X : Option Nat} {s : State} (c : Nat) (h : LinkX L X s) 
 
 theorem setConn_http_linkx {L X : Option Nat} {s : State} (c : Nat) (g : Conn → Conn) (h : LinkX L X s)
     (hg : ∀ x, (g x).sock = x.sock ∧ (g x).pending = x.pending) : LinkX L X (setConn s c g) := by
-  refine linkx_frame2 h ?_ (Nat.le_refl _) (fun r rs' h1 _ => ⟨rs', h1, rfl, rfl, id, id⟩)
+  refine linkx_frame2 h ?_ (Nat.le_refl _) (fun r rs' h1 _ => ⟨rs', h1, rfl, rfl, rfl, id, id⟩)
   intro c' cn' h1
   simp only [setConn, List.getElem?_modify] at h1
   cases hx : s.conns[c']? with
@@ -1931,7 +1973,7 @@ theorem connect_linkx {L X : Option Nat} {s : State} {c : Nat} {cn : Conn} (a : 
   have hp : cn.pending = none := h.nosock c cn hc hs
   unfold connect
   cases a.connect <;> dsimp only
-  · refine linkx_frame2 h ?_ (Nat.le_refl _) (fun r rs' h1 _ => ⟨rs', h1, rfl, rfl, id, id⟩)
+  · refine linkx_frame2 h ?_ (Nat.le_refl _) (fun r rs' h1 _ => ⟨rs', h1, rfl, rfl, rfl, id, id⟩)
     intro c' cn' h1
     simp only [setConn, logEv, List.getElem?_modify] at h1
     cases hx : s.conns[c']? with
@@ -2038,7 +2080,7 @@ theorem hp_linkx {s0 s : State} {k c : Nat} {cn : Conn} (hp : HP k c s0 s) (h : 
     · rw [hp.cother c' hcc] at h1; exact Or.inr ⟨cn', h1, rfl, rfl⟩
   · intro r rs' h1 hb
     rw [hp.rold r hb] at h1
-    exact ⟨rs', h1, rfl, rfl, id, id⟩
+    exact ⟨rs', h1, rfl, rfl, rfl, id, id⟩
 
 /-- what `_make_request` knows about the response object `getresponse()` built on the leased connection -/
 structure NewResp (s' : State) (c k r : Nat) : Prop where
@@ -2196,8 +2238,11 @@ theorem getResponse_head_link {A : Nat → Attempt → Prop} {s s' : State} {c k
             rw [hr4] at g4'; cases g4'
             refine ⟨hlen, ?_, fun hL => absurd rfl hL⟩
             intro k' hk'
-            have : r0.fp = some k' := hk'
-            rw [← hr0] at this; cases this; rfl
+            rcases hk' with hk' | hk'
+            · have : r0.fp = some k' := hk'
+              rw [← hr0] at this; cases this; rfl
+            · have : r0.eofAt = some k' := hk'
+              rw [← hr0] at this; cases this
           · have g1' : s4.conns[c2]? = some cn2 := by
               simpa [setConn, List.getElem?_modify, Ne.symm hcc] using g1
             exact l4.pend c2 cn2 k2 r rs g1' g2 g3 g4'
@@ -2604,18 +2649,6 @@ theorem readExc_not_noCleanup {e : Exc} (u : Bool) (rt : Retry) (m : Bool)
 
 /-! ### a trailer section that ends at EOF: the socket has the FIN pending (the checkout probe will see it) -/
 
-theorem eolIdx_pos : ∀ (l : List Cell) (i n : Nat), eolIdx l i = some n → i < n ∧ n ≤ i + l.length := by
-  intro l
-  induction l with
-  | nil => intro i n h; simp [eolIdx] at h
-  | cons c t ih =>
-    intro i n h
-    simp only [eolIdx] at h
-    split at h
-    · cases h; simp
-    · obtain ⟨g1, g2⟩ := ih (i + 1) n h
-      simp; omega
-
 theorem recvInto_eof_readable {s s' : State} {r k room : Nat} (h : recvInto s r k room = (s', .eof)) :
     sockReadable s' k = true ∧ s'.resps = s.resps := by
   unfold recvInto at h
@@ -2987,7 +3020,7 @@ theorem makeRequest_link {A : Nat → Attempt → Prop} {s s' : State} {c rid : 
       · rename_i cn hcn
         split at hm
         · rename_i k hk
-          obtain ⟨sk, hsk, hin⟩ := hl1 cn k hcn hk
+          obtain ⟨sk, hsk, hin, _⟩ := hl1 cn k hcn hk
           exact tail k cn sk p1 hcn hk hsk (Or.inr hin) hm
         · exact bad _ hm
       · exact bad _ hm
